@@ -55,18 +55,40 @@ func runHistory(r *Rng, cfg histCfg, replaySteps []string) (h *HistRunner, err e
 	} else if r.Chance(1, 3) {
 		bulk = 250
 	}
-	sys, err := NewSys(SysOpts{IdleBulk: time.Duration(bulk) * time.Millisecond})
+	// error paths (hfc_hist.go): the history runs against a connector whose calls can be made to fail; like the bulk
+	// time it is a property of the server, recorded as a step in front of the history
+	failConn := strings.Contains(cfg.profile, "failconn")
+	if replaySteps != nil {
+		failConn = hfcWantsFailConn(replaySteps)
+	}
+	var (
+		sys *Sys
+		hfc *hfcFailConn
+	)
+	if failConn {
+		dummy := c20NewSysDummy([]string{"user"})
+		hfc = hfcNewFailConn(dummy)
+		sys, err = c20NewSysConn(SysOpts{IdleBulk: time.Duration(bulk) * time.Millisecond, Conn: dummy}, hfc)
+	} else {
+		sys, err = NewSys(SysOpts{IdleBulk: time.Duration(bulk) * time.Millisecond})
+	}
 	if err != nil {
 		return nil, err
 	}
 	defer sys.Close(true)
 	h = NewHistRunner(sys)
+	h.hfc = hfc
 	defer h.CloseSessions()
 	if err := h.setupMailboxes(); err != nil {
 		return h, err
 	}
 	if replaySteps == nil && bulk != 0 {
 		if err := h.Exec(fmt.Sprintf("X IDLEBULK %d", bulk)); err != nil {
+			return h, err
+		}
+	}
+	if replaySteps == nil && failConn {
+		if err := h.Exec("X FAILCONN"); err != nil {
 			return h, err
 		}
 	}
@@ -77,7 +99,7 @@ func runHistory(r *Rng, cfg histCfg, replaySteps []string) (h *HistRunner, err e
 			}
 		}
 	} else {
-		for k := 0; k < cfg.steps || (h.pattern != nil && k < cfg.steps+600); k++ {
+		for k := 0; k < cfg.steps || ((h.pattern != nil || h.hfcPending()) && k < cfg.steps+600); k++ {
 			st := h.GenStep(r, cfg.nsess, cfg.profile)
 			if err := h.Exec(st); err != nil {
 				return h, fmt.Errorf("step %q: %w", st, err)
@@ -574,6 +596,12 @@ func runHistOracle(args []string) int {
 			case 3:
 				cfg.profile += ",batch"
 			}
+		}
+		if k%4 == 0 {
+			// error paths: the history runs against a connector whose calls fail on request, and every command kind goes
+			// once through the pattern [changes of other sessions delivered, not flushed -> the session's own command,
+			// answered NO -> probe] (hfc_hist.go)
+			cfg.profile += ",failconn"
 		}
 		h, err := runHistory(hr, cfg, nil)
 		if h == nil {
